@@ -107,3 +107,41 @@ macro_rules! witness {
         { let _ = $c; }
     }};
 }
+
+// ------------------------------------------------------------------------------------------------
+// Wall clock (std::time::SystemTime::now) shared control.
+//   * Kani: `#[kani::stub(std::time::SystemTime::now, crate::sym::clock::systemtime_now_stub)]`
+//     returns UNIX_EPOCH + NOW (seconds + micros), an arbitrary value chosen by the harness.
+//   * native replay: the run is started with LD_PRELOAD=/verif/.cache/fakeclock.so, which answers
+//     clock_gettime(CLOCK_REALTIME) from the environment variable set here — the real std code then
+//     reads exactly the solver's clock value.
+// ------------------------------------------------------------------------------------------------
+pub mod clock {
+    pub static mut NOW_SECS: u64 = 0;
+    pub static mut NOW_NANOS: u32 = 0;
+
+    pub fn set_realtime(secs: u64, nanos: u32) {
+        unsafe { NOW_SECS = secs; NOW_NANOS = nanos; }
+        #[cfg(not(kani))]
+        unsafe { std::env::set_var("VERIF_FAKE_REALTIME", format!("{} {}", secs, nanos)); }
+    }
+
+    pub fn systemtime_now_stub() -> std::time::SystemTime {
+        std::time::UNIX_EPOCH + std::time::Duration::new(unsafe { NOW_SECS }, unsafe { NOW_NANOS })
+    }
+
+    /// Kani stub for `SystemTime::duration_since` (only ever called as `now.duration_since(UNIX_EPOCH)`
+    /// in the code under test): the Timespec subtraction in std is recursive and expensive to unwind.
+    pub fn duration_since_stub(_t: &std::time::SystemTime, _earlier: std::time::SystemTime) -> Result<std::time::Duration, std::time::SystemTimeError> {
+        Ok(std::time::Duration::new(unsafe { NOW_SECS }, unsafe { NOW_NANOS }))
+    }
+
+    /// natively: check that the preloaded clock is in effect (otherwise the replay is meaningless)
+    #[cfg(not(kani))]
+    pub fn assert_fake_clock_active() {
+        let now = std::time::SystemTime::now().duration_since(std::time::UNIX_EPOCH).map(|d| d.as_secs()).unwrap_or(u64::MAX);
+        if now != unsafe { NOW_SECS } { println!("REPLAY-ENV-FAILED fake clock not active (now={} wanted={})", now, unsafe { NOW_SECS }); std::process::exit(104); }
+    }
+    #[cfg(kani)]
+    pub fn assert_fake_clock_active() {}
+}
